@@ -3,7 +3,7 @@
    weights for totality. *)
 From Coq Require Import String List Bool ZArith QArith Arith Lia.
 From GV Require Import Base.Outcome Base.AMap Model.GState Model.Creation Model.Query Model.Dijkstra.
-From GV Require Import Spec.History Proofs.WFDefs Proofs.HistoryOk Proofs.DijkstraModelOk Proofs.DijkstraWF.
+From GV Require Import Spec.History Spec.EdgeStoreGraph Proofs.WFDefs Proofs.HistoryOk Proofs.DijkstraModelOk Proofs.DijkstraWF.
 Import ListNotations.
 Open Scope string_scope.
 
